@@ -13,12 +13,18 @@ EXTENDS Naturals, Sequences, FiniteSets, TLC
 CONSTANTS W,          \* address width in bits
           Caches,     \* RTR caches (sources)
           Asns,       \* AS numbers appearing in VRPs (may contain 0 = AS0)
-          Origins,    \* route origins explored: AS numbers plus NoneO (AS_SET tail: RFC 6811 "NONE")
+          Origins,    \* route origins explored: AS numbers and the path-form codes below
           MaxVrps     \* bound on the table size
 
 VARIABLE s            \* the table: a set of VRPs
 
-NoneO == 99
+\* origin codes that are not plain AS numbers (the harness builds the AS_PATH of each code):
+\*   99  AS_SEQUENCE [x] then an AS_SET as the final segment                    -> RFC 6811 "NONE"
+\*   98  AS_SEQUENCE [x, AS 1] then an AS_SET as the final segment              -> NONE (the sequence before the set does not count)
+\*    5  an AS_SET in front, AS_SEQUENCE [AS 1] as the final segment            -> AS 1
+NoneOs == {98, 99}
+IsNone(o) == o \in NoneOs
+AsOf(o) == IF o = 5 THEN 1 ELSE o
 
 Pow2(n) == IF n = 0 THEN 1 ELSE IF n = 1 THEN 2 ELSE IF n = 2 THEN 4 ELSE IF n = 3 THEN 8 ELSE 16
 
@@ -35,7 +41,7 @@ Routes == [p : Prefixes, o : Origins]
 
 \* RFC 6811 section 2
 Covering(S, r) == {v \in S : Covers(v.p, r.p)}
-Matches(v, r)  == r.o # NoneO /\ v.a = r.o /\ v.a # 0 /\ r.p.len <= v.m
+Matches(v, r)  == ~IsNone(r.o) /\ v.a = AsOf(r.o) /\ v.a # 0 /\ r.p.len <= v.m
 State(S, r) ==
   IF Covering(S, r) = {} THEN "NotFound"
   ELSE IF \E v \in Covering(S, r) : Matches(v, r) THEN "Valid"
@@ -76,8 +82,8 @@ OnlyCoveringMatters ==
 StatesConsistent ==
   \A r \in Routes :
     /\ (State(s, r) = "NotFound") <=> (\A v \in s : ~Covers(v.p, r.p))
-    /\ (State(s, r) = "Valid") => r.o # NoneO
-    /\ (r.o = NoneO /\ Covering(s, r) # {}) => State(s, r) = "Invalid"
+    /\ (State(s, r) = "Valid") => ~IsNone(r.o)
+    /\ (IsNone(r.o) /\ Covering(s, r) # {}) => State(s, r) = "Invalid"
 
 \* AS0 VRPs never validate anything
 As0NeverValid ==
